@@ -4,7 +4,7 @@ From Coq Require Import List Bool Arith.
 Import ListNotations.
 Require Import EV.model.Ids EV.proofs.IdsP EV.model.Chan EV.proofs.ChanP EV.gen.Facts.
 
-Lemma C18_cfg_ok : icfg_ok ids_cfg /\ ids_codec_by_id = true /\ chan_local_close_order_ok = true /\ chan_handlers_ok = true /\ chan_close_shape_ok = true /\ loss_finished_receiving_ok = true.
+Lemma C18_cfg_ok : icfg_ok ids_cfg /\ ids_codec_by_id = true /\ chan_local_close_order_ok = true /\ chan_handlers_ok = true /\ chan_close_shape_ok = true /\ loss_finished_receiving_ok = true /\ ids_tables_forget_ok = true.
 Proof. repeat split; reflexivity. Qed.
 
 (* for every number of allocating threads on either side and every interleaving of their read-count /
